@@ -15,6 +15,7 @@ import types
 import zlib
 
 import dns.exception
+import dns.flags
 import dns.message
 import dns.name
 import dns.edns
@@ -529,6 +530,118 @@ def eval_robj(ctx: Ctx, c: dict):
         fail(ctx, f"C08/renderer/{clause}", text, c)
 
 
+def eval_response(ctx: Ctx, c: dict):
+    """the object route by which the size limit reaches to_wire: a query (built locally, or sent through to_wire → from_wire
+    as a server sees it), make_response, records added, then to_wire with max_size left at its default — the effective
+    limit is the *requester's advertised payload* (clamped to [512, 65535]); 65535 when the query had no EDNS"""
+    pin_time()
+    qname = dns.name.Name(L(c["qname"]))
+    q = dns.message.QueryMessage(id=c["id"])
+    q.flags = dns.flags.Flag(c["qflags"])
+    q.question.append(dns.rrset.RRset(qname, 1, 1))
+    key = None
+    if c["edns"]:
+        opts = [dns.edns.GenericOption(12, b"\0" * c["qpadlen"])] if c["qpad"] else []
+        q.use_edns(0, 0, c["payload"], options=opts)
+    if c["tsig"] is not None:
+        t = c["tsig"]
+        key = dns.tsig.Key(dns.name.Name(L(t["name"])), bytes.fromhex(c["secret"]), dns.name.Name(L(t["alg"])))
+        q.use_tsig(key)
+    if c["route"] == "wire":
+        try:
+            q = dns.message.from_wire(q.to_wire(), keyring=None if key is None else {key.name: key})
+        except Exception as e:  # noqa: BLE001
+            fail(ctx, f"C08/response/query-roundtrip/{type(e).__name__}", f"the query does not survive to_wire → from_wire: {e}", c)
+            return
+    kw = {}
+    if c["our_payload"] is not None:
+        kw["our_payload"] = c["our_payload"]
+    if c["pad"] is not None:
+        kw["pad"] = c["pad"]
+    resp = dns.message.make_response(q, **kw)
+    for sx in (1, 2, 3):
+        for r in c["sections"][sx]:
+            resp.sections[sx].append(mk_rrset(r))
+    # ---- what make_response must have set up (RFC 6891 §6.2.3/6.2.5, RFC 8467 §4.2)
+    want_rp = c["payload"] if c["edns"] else 0
+    want_pad = 0 if not c["edns"] else c["pad"] if c["pad"] is not None else (468 if c["qpad"] else 0)
+    want_ours = None if not c["edns"] else (c["our_payload"] if c["our_payload"] is not None else 8192)
+    got = (resp.request_payload, resp.pad, None if resp.opt is None else int(resp.payload))
+    if got != (want_rp, want_pad, want_ours) or (resp.opt is not None) != c["edns"]:
+        fail(ctx, "C08/response/limit-inputs", f"make_response of a query ({c['route']}) advertising payload {c['payload'] if c['edns'] else 'no EDNS'}: "
+             f"(request_payload, pad, payload) = {got}, expected {(want_rp, want_pad, want_ours)}", c)
+    c1 = case_of_message(resp, kind="response")
+    c1["request_payload"], c1["pad"] = want_rp, want_pad          # the model is told what the requester advertised, not what the object says
+    if resp.tsig is not None:
+        c1["tsig"] = dict(tsig_case(resp.tsig), mac="")
+    L_ = eff_limit(0, want_rp)
+    try:
+        full = None if want_pad else true_full_size(c1, resp)
+    except Exception:  # noqa: BLE001
+        full = None
+    toks = model_tokens(c1)
+    outs = []
+    for pt in (False, True):
+        tag = "truncate" if pt else "strict"
+        line, w = render(resp, 0, pt)
+        outs.append(f"{int(pt)}={digest(c1, line, w)}")
+        ctx.count(f"response.{tag}." + ("ok" if w is not None else line.split(" ")[1]))
+        cc = dict(c, prefer_truncation=pt)
+        if w is None:
+            if line != "err TooBig":
+                fail(ctx, f"C08/response/raises/{line.split(' ')[1]}", f"to_wire(prefer_truncation={pt}) of the response: {line}", cc)
+            elif not pt and full is not None and full <= L_:
+                fail(ctx, "C08/response/TooBig-although-fits", f"the response is {full} octets, the requester's limit {L_}", cc)
+            continue
+        try:
+            w_default = resp.to_wire(prefer_truncation=pt, want_shuffle=False) if resp.tsig is None else None   # max_size omitted altogether
+        except Exception as e:  # noqa: BLE001
+            w_default = type(e).__name__
+        if w_default is not None and w_default != w:
+            fail(ctx, "C08/response/default-max_size", "to_wire() with max_size omitted differs from max_size=0", cc)
+        if len(w) > L_:
+            fail(ctx, f"C08/response/{tag}/exceeds-requester-payload",
+                 f"a response of {len(w)} octets for a requester ({c['route']} query) advertising {c['payload'] if c['edns'] else 'no EDNS'}: effective limit {L_}", cc)
+        if want_pad and len(w) % want_pad:
+            fail(ctx, "C08/response/padding-multiple", f"pad={want_pad}: {len(w)} octets", cc)
+        if full is not None:
+            if not pt and len(w) != full:
+                fail(ctx, "C08/response/strict/not-the-full-message", f"{len(w)} octets, the complete response has {full}", cc)
+            if pt and full > L_ and len(w) >= full:
+                fail(ctx, "C08/response/truncate/not-truncated", f"{len(w)} octets although the complete response ({full}) exceeds the requester's limit {L_}", cc)
+        if resp.tsig is None:
+            check_rendering(ctx, c1, w, 0, pt, None, None, None, want_pad)
+    ctx.corr(f"c08.limits 0 0 {toks}", "ok 0=" + outs[0].split("=", 1)[1], c)
+    ctx.corr(f"c08.limits 1 0 {toks}", "ok 0=" + outs[1].split("=", 1)[1], c)
+    ctx.count("response")
+    ctx.count("response.route." + c["route"])
+
+
+def gen_response(rng):
+    base = [b"example", b""]
+    def rr(name, rdtype, rds, ttl=300):
+        return {"name": hexl(name), "rdclass": 1, "rdtype": rdtype, "covers": 0, "deleting": None, "ttl": ttl, "rdatas": rds}
+    edns = rng.chance(5, 6)
+    payload = rng.choice([0, 100, 511, 512, 513, 1232, 1232, 4096, 65535, rng.range(512, 9000)])
+    target = rng.choice([300, 500, 520, 1200, 1300, 4000, 4200, 9000]) if rng.chance(3, 4) else payload + rng.range(-40, 40)
+    sections = [[], [], [], []]
+    size, i = 40, 0
+    while size < target:
+        k = 1 + rng.below(4)
+        rds = [{"k": "o", "b": (bytes([i % 256, j]) + rng.bytes(20 + rng.below(180))).hex()} for j in range(k)]
+        sections[1 if size < target * 2 // 3 else rng.choice([2, 3])].append(rr([b"h%d" % i] + base, 65280, rds))
+        size += sum(12 + len(bytes.fromhex(x["b"])) for x in rds) + 6
+        i += 1
+    c = {"kind": "response", "id": rng.choice([0, 1, rng.below(65536)]), "qflags": rng.choice([0, 0x0100]), "qname": hexl([b"www"] + base),
+         "edns": edns, "payload": payload, "qpad": edns and rng.chance(1, 4), "qpadlen": rng.choice([0, 5, 40]),
+         "our_payload": rng.choice([None, 512, 1232, 8192, 65535]), "pad": rng.choice([None, None, 0, 16, 128, 468]),
+         "route": rng.choice(["wire", "wire", "local"]), "tsig": None, "sections": sections}
+    if rng.chance(1, 4):
+        c["tsig"] = {"name": hexl([b"key"] + (base if rng.chance(1, 2) else [b"other", b""])), "alg": hexl([b"hmac-sha256", b""])}
+        c["secret"] = rng.bytes(16).hex()
+    return c
+
+
 def eval_padhuge(ctx: Ctx, c: dict):
     """a block size for which the PADDING option itself cannot be encoded (its data would exceed 65535 octets)"""
     m = dns.message.make_query("www.example.", "A", id=1)
@@ -758,6 +871,8 @@ def eval_case(ctx: Ctx, c: dict):
         eval_reemit(ctx, c)
     elif k == "padhuge":
         eval_padhuge(ctx, c)
+    elif k == "response":
+        eval_response(ctx, c)
     else:
         raise ValueError(k)
 
@@ -964,6 +1079,9 @@ def generate(ctx: Ctx, scale: int, rng):
             continue
         c["limits"] = lims
         run_one(ctx, c)
+    # responses made by make_response from a query that went through the wire; max_size left at its default
+    for i in range(n(60)):
+        run_one(ctx, gen_response(rng))
     # a received signed message, padded and rendered again (TSIG re-emitted as is, or signed anew)
     for i in range(n(40)):
         c = gen_sized(rng, rng.choice([60, 150, 300, 520]), want_opt=rng.chance(1, 2), want_tsig=True,
